@@ -150,6 +150,10 @@ fn patterns(tier: Tier) -> Vec<(&'static str, Vec<u64>, Vec<u64>)> {
         ("same_multiset_other_order", vec![0, 1, 2, 0, 1, 2], vec![2, 1, 0, 2, 1, 0]),
         ("one_symbol", vec![5, 5, 5, 5], vec![5, 5, 5, 5, 5, 5]),
         ("swap_adjacent", vec![0, 1, 2, 3, 4, 5], vec![0, 1, 3, 2, 4, 5]),
+        // an element in a run that comes back later, against the same multiset in another shape
+        ("run_then_recurrence", vec![0, 0, 1, 0], vec![0, 1, 0, 0]),
+        ("runs_and_returns", vec![0, 0, 1, 1, 0, 1, 2, 0, 0], vec![0, 1, 0, 1, 0, 0, 2, 1, 0]),
+        ("run_returns_vs_interleaved", vec![3, 3, 3, 4, 3, 4, 4, 3], vec![3, 4, 3, 4, 3, 4, 3, 3]),
     ];
     // long l (up to 15): sequences only slightly longer than l keep the exact oracle small (C(len,l)^2 states)
     let mut a17 = r(0..17);
@@ -170,9 +174,35 @@ fn patterns(tier: Tier) -> Vec<(&'static str, Vec<u64>, Vec<u64>)> {
 
 pub fn run(rep: &mut Report) {
     quiet_panics();
-    rep.rule = "cell = (pair of sequence patterns, l, m); per trial the symbols get fresh random labels, hash_set(A) and hash_set(B) run on one real instance, statistic = fraction of equal signature positions; target = exact order-min-hash collision probability from a memoised enumeration of the uniform ranking of all (element, occurrence) pairs (harness oracle, no sketching code); staged z-test; probabilities 0 and 1 are exact. Distinct = cells; non-trivial: 0 < target < 1".into();
+    rep.rule = "cell = (pair of sequence patterns — 17 fixed ones incl. runs that come back later, plus 4 / 24 seeded pairs over a 2-3 letter alphabet —, l, m); per trial the symbols get fresh random labels, hash_set(A) and hash_set(B) run on one real instance, statistic = fraction of equal signature positions; target = exact order-min-hash collision probability from a memoised enumeration of the uniform ranking of all (element, occurrence) pairs (harness oracle, no sketching code); staged z-test; probabilities 0 and 1 are exact. Distinct = cells; non-trivial: 0 < target < 1".into();
     let t1: u64 = rep.tier.pick(6000, 60_000);
-    let pats = patterns(rep.tier);
+    let mut pats = patterns(rep.tier);
+    // seeded pairs over a small alphabet (runs, returns, different multiplicities): shapes nobody listed
+    let seeded: Vec<(String, Vec<u64>, Vec<u64>)> = {
+        let mut r = rng_from(subseed(rep.seed, "C10/seeded-patterns", &[]));
+        (0..rep.tier.pick(4, 24))
+            .map(|k| {
+                let alpha = r.random_range(2..=3u64);
+                let la = r.random_range(4..=9usize);
+                let a: Vec<u64> = (0..la).map(|_| r.random_range(0..alpha)).collect();
+                // b: a permutation of a (same multiset), or an independent sequence
+                let b: Vec<u64> = if r.random_range(0..3) > 0 {
+                    let mut b = a.clone();
+                    shuffle(&mut b, &mut r);
+                    b
+                } else {
+                    let lb = r.random_range(4..=9usize);
+                    (0..lb).map(|_| r.random_range(0..alpha)).collect()
+                };
+                (format!("seeded{}_{}_vs_{}", k, a.iter().map(|x| x.to_string()).collect::<String>(), b.iter().map(|x| x.to_string()).collect::<String>()), a, b)
+            })
+            .collect()
+    };
+    let seeded_refs: Vec<(&str, Vec<u64>, Vec<u64>)> = seeded.iter().map(|(n, a, b)| (n.as_str(), a.clone(), b.clone())).collect();
+    let mut all: Vec<(&str, Vec<u64>, Vec<u64>)> = Vec::new();
+    all.append(&mut pats);
+    all.extend(seeded_refs);
+    let pats = all;
     let ms: Vec<u32> = vec![1, 4, 32, 64, 1024];
     let mut ci = 0u64;
     for (pname, pa, pb) in &pats {
@@ -187,7 +217,7 @@ pub fn run(rep: &mut Report) {
             for &m in &ms {
                 ci += 1;
                 let hsel = mix(&[ci, rep.seed, 0xC10]);
-                if rep.tier == Tier::Quick && hsel % 4 != 0 && !(*pname == "repo_pattern_1" && m == 1 && l == 1) && !(l > 5 && m == 32) {
+                if rep.tier == Tier::Quick && hsel % 4 != 0 && !(*pname == "repo_pattern_1" && m == 1 && l == 1) && !(l > 5 && m == 32) && !((pname.starts_with("run") || pname.starts_with("seeded")) && l == 2 && m == 4) {
                     continue;
                 }
                 let cell = format!("{}/l={}/m={}", pname, l, m);
